@@ -642,11 +642,37 @@ fn run_l3(case: &str, parts: &[&str], drv: &mut Driver, rep: &mut Report) {
             grep_matcher::LineTerminator::byte(b'\n')
         })
         .build();
-    if searcher.search_slice(&matcher, &input, printer.sink(&matcher)).is_err() {
+    // the real printer behind a tee that records the blocks it is handed (for the Lean model of the multi-line
+    // branch); a panic of the printer (a kept match ending beyond the block, F18 family) must not take the harness down
+    let ml_eff = searcher.multi_line_with_matcher(&matcher);
+    let mut blocks_seen: Vec<L3Block> = vec![];
+    let searched = std::panic::catch_unwind(std::panic::AssertUnwindSafe(|| {
+        let tee = L3Tee { inner: printer.sink(&matcher), blocks: &mut blocks_seen };
+        searcher.search_slice(&matcher, &input, tee)
+    }));
+    let impl_panicked = searched.is_err();
+    if let Ok(Err(_)) = searched {
         rep.branch("l3:search-error");
         return;
     }
     let out = printer.into_inner().into_inner();
+    l3_model_check(case, &matcher, &tmpl, &input, crlf, ml_eff, &blocks_seen, &out, impl_panicked, drv, rep);
+    // shadow run (model comparison only): the same search on the input followed by 150 bytes of filler lines, so
+    // that `replace_all` really cuts the haystack MAX_LOOK_AHEAD bytes after the block
+    if ml_eff && fnv(case.as_bytes()) % 4 == 0 {
+        l3_shadow_padded(case, &matcher, &tmpl, &input, crlf, pre, drv, rep);
+    }
+    if impl_panicked {
+        rep.branch("l3:printer-panic");
+        rep.violation(Violation {
+            kind: "impl_vs_spec".into(),
+            class: "multiline-match-beyond-block".into(),
+            tie: "rg -U -r must print every reported block".into(),
+            case: case.to_string(),
+            detail: format!("pattern {:?} input {:?}: the printer panicked inside replace_all", pat, show(&input)),
+        });
+        return;
+    }
     // spec: successive matches over the whole input; blocks = covered lines, touching blocks merged
     let line_start = |p: usize| input[..p].iter().rposition(|&b| b == b'\n').map_or(0, |i| i + 1);
     let line_end = |p: usize| {
@@ -771,6 +797,226 @@ fn run_l3(case: &str, parts: &[&str], drv: &mut Driver, rep: &mut Report) {
             ),
         });
     }
+}
+
+/// One `matched` callback of an l3 search: the block `[rs, re)` of the (slice) buffer, its offset and line number,
+/// and whether the real sink's callback returned (it does not when `replace_all` panics).
+struct L3Block {
+    rs: usize,
+    re: usize,
+    off: u64,
+    ln: Option<u64>,
+    returned: bool,
+}
+
+struct L3Tee<'t, S> {
+    inner: S,
+    blocks: &'t mut Vec<L3Block>,
+}
+
+impl<'t, S: grep_searcher::Sink<Error = std::io::Error>> grep_searcher::Sink for L3Tee<'t, S> {
+    type Error = std::io::Error;
+    fn matched(&mut self, searcher: &grep_searcher::Searcher, mat: &grep_searcher::SinkMatch<'_>) -> Result<bool, std::io::Error> {
+        let r = mat.bytes_range_in_buffer();
+        self.blocks.push(L3Block { rs: r.start, re: r.end, off: mat.absolute_byte_offset(), ln: mat.line_number(), returned: false });
+        let ret = self.inner.matched(searcher, mat)?;
+        if let Some(b) = self.blocks.last_mut() {
+            b.returned = true;
+        }
+        Ok(ret)
+    }
+    fn context(&mut self, searcher: &grep_searcher::Searcher, ctx: &grep_searcher::SinkContext<'_>) -> Result<bool, std::io::Error> {
+        self.inner.context(searcher, ctx)
+    }
+    fn context_break(&mut self, searcher: &grep_searcher::Searcher) -> Result<bool, std::io::Error> {
+        self.inner.context_break(searcher)
+    }
+    fn begin(&mut self, searcher: &grep_searcher::Searcher) -> Result<bool, std::io::Error> {
+        self.inner.begin(searcher)
+    }
+    fn finish(&mut self, searcher: &grep_searcher::Searcher, fin: &grep_searcher::SinkFinish) -> Result<(), std::io::Error> {
+        self.inner.finish(searcher, fin)
+    }
+}
+
+/// impl vs model for C19 under -U: every block the real printer was handed is given to the Lean model of the
+/// multi-line branch (`ReplaceMulti.printReplacedBlock`, theorems `C19_multi_buffer` / `C19_multi_records` /
+/// `C19_multi` / `C19_multi_unreplaced` in Props/C19Multi.lean) with the real matcher's `captures_at` answers on
+/// the haystack the model cuts; the concatenation of the model's outputs must be the printer's bytes, and the model
+/// must abort exactly where the printer panics.
+#[allow(clippy::too_many_arguments)]
+fn l3_model_check(
+    case: &str,
+    matcher: &grep_regex::RegexMatcher,
+    tmpl: &[u8],
+    input: &[u8],
+    crlf: bool,
+    ml_eff: bool,
+    blocks: &[L3Block],
+    out: &[u8],
+    impl_panicked: bool,
+    drv: &mut Driver,
+    rep: &mut Report,
+) {
+    if !ml_eff {
+        // the pattern cannot match a line terminator: the searcher and the printer take the line-oriented
+        // branch, which is the l2 stream's business
+        rep.branch("l3:not-effective-multi-line");
+        return;
+    }
+    let lt = if crlf { "crlf" } else { "lf" };
+    let tie = "Standard printer with replacement under -U (Replacer::replace_all multi-line branch, sink_slow_multi_line on                the replaced bytes) vs Model.ReplaceMulti.printReplacedBlock (theorems C19_multi_buffer, C19_multi_records,                C19_multi, C19_multi_unreplaced)";
+    let mut names = vec![];
+    for n in NAMES.iter() {
+        if let Some(i) = matcher.capture_index(n) {
+            names.push((n.to_string(), i));
+        }
+    }
+    let mut model_out: Vec<u8> = vec![];
+    let mut model_panicked = false;
+    for b in blocks {
+        let cut: usize = match drv.ask(&format!("c19.mlcut {} {} {}", lt, hex(input), b.re)).parse() {
+            Ok(c) => c,
+            Err(_) => {
+                // the C19 driver does not delegate `c19.ml…` (yet)
+                rep.branch("l3:model-not-wired");
+                return;
+            }
+        };
+        if cut > input.len() {
+            rep.violation(Violation {
+                kind: "impl_vs_model".into(),
+                class: "".into(),
+                tie: "driver c19.mlcut".into(),
+                case: case.to_string(),
+                detail: format!("cut {} beyond the buffer", cut),
+            });
+            return;
+        }
+        if cut < input.len() {
+            rep.branch("l3:look-ahead-cut");
+        }
+        let (table, _sane) = caps_sx(matcher, &input[..cut], b.rs);
+        let reply = drv.ask(&format!(
+            "c19.mlprint {} {} {} {} {} {} {} {} {}",
+            lt,
+            hex(input),
+            b.rs,
+            b.re,
+            b.off,
+            b.ln.map_or("~".to_string(), |n| n.to_string()),
+            hex(tmpl),
+            names_sx(&names),
+            table
+        ));
+        if reply == "panic" {
+            model_panicked = true;
+            if b.returned {
+                rep.violation(Violation {
+                    kind: "impl_vs_model".into(),
+                    class: "".into(),
+                    tie: tie.into(),
+                    case: case.to_string(),
+                    detail: format!("block [{}, {}): the model aborts, the printer does not", b.rs, b.re),
+                });
+                return;
+            }
+            break;
+        }
+        let m = reply
+            .split(' ')
+            .find_map(|f| f.strip_prefix("out="))
+            .and_then(unhex);
+        match m {
+            Some(bytes) => {
+                if !b.returned {
+                    rep.violation(Violation {
+                        kind: "impl_vs_model".into(),
+                        class: "".into(),
+                        tie: tie.into(),
+                        case: case.to_string(),
+                        detail: format!("block [{}, {}): the printer panicked, the model prints {:?}", b.rs, b.re, show(&bytes)),
+                    });
+                    return;
+                }
+                if reply.contains("spans= ") || reply.ends_with("spans=") {
+                    rep.branch("l3:block-unreplaced");
+                } else {
+                    rep.branch("l3:block-replaced");
+                }
+                model_out.extend(bytes);
+            }
+            None => {
+                rep.violation(Violation {
+                    kind: "impl_vs_model".into(),
+                    class: "".into(),
+                    tie: tie.into(),
+                    case: case.to_string(),
+                    detail: format!("driver reply: {}", reply),
+                });
+                return;
+            }
+        }
+    }
+    if model_panicked != impl_panicked {
+        rep.violation(Violation {
+            kind: "impl_vs_model".into(),
+            class: "".into(),
+            tie: tie.into(),
+            case: case.to_string(),
+            detail: format!("printer panicked: {}, model aborts: {}", impl_panicked, model_panicked),
+        });
+        return;
+    }
+    if model_out != out {
+        rep.violation(Violation {
+            kind: "impl_vs_model".into(),
+            class: "".into(),
+            tie: tie.into(),
+            case: case.to_string(),
+            detail: format!("input {:?}: printer {:?} model {:?}", show(input), show(out), show(&model_out)),
+        });
+    }
+}
+
+/// The l3 search repeated on `input ++ filler` (50 lines `zz`), printer vs model only.
+#[allow(clippy::too_many_arguments)]
+fn l3_shadow_padded(
+    case: &str,
+    matcher: &grep_regex::RegexMatcher,
+    tmpl: &[u8],
+    input: &[u8],
+    crlf: bool,
+    pre: bool,
+    drv: &mut Driver,
+    rep: &mut Report,
+) {
+    let mut padded = input.to_vec();
+    if !padded.is_empty() && padded.last() != Some(&b'\n') {
+        padded.push(b'\n');
+    }
+    for _ in 0..50 {
+        padded.extend_from_slice(b"zz\n");
+    }
+    let mut printer = StandardBuilder::new().replacement(Some(tmpl.to_vec())).build_no_color(vec![]);
+    let mut searcher = SearcherBuilder::new()
+        .multi_line(true)
+        .line_number(pre)
+        .line_terminator(if crlf { grep_matcher::LineTerminator::crlf() } else { grep_matcher::LineTerminator::byte(b'\n') })
+        .build();
+    let mut blocks: Vec<L3Block> = vec![];
+    let searched = std::panic::catch_unwind(std::panic::AssertUnwindSafe(|| {
+        let tee = L3Tee { inner: printer.sink(matcher), blocks: &mut blocks };
+        searcher.search_slice(matcher, &padded, tee)
+    }));
+    let panicked = searched.is_err();
+    if let Ok(Err(_)) = searched {
+        return;
+    }
+    let out = printer.into_inner().into_inner();
+    rep.branch("l3:shadow-padded");
+    // reported under the original case line: replaying it runs this shadow search again
+    l3_model_check(case, matcher, tmpl, &padded, crlf, true, &blocks, &out, panicked, drv, rep);
 }
 
 fn run_case(case: &str, drv: &mut Driver, rep: &mut Report) {
